@@ -117,7 +117,7 @@ _e("crate::wrap_algorithms::WrapAlgorithm::wrap", "call:Result::unwrap",
 
 LN = "crate::wrap_algorithms::optimal_fit::LineNumbers::get"
 _e(LN, "assert:Overflow:Add", "{$2} ; {k}", ["A-smawk", "C03.R2"], "i <= fragments.len() <= isize::MAX at every call site (the closure asks for L(i): C03.R2)")
-_e(LN, "assert:BoundsCheck", "{Vec::len(RefCell::borrow(_.line_numbers))} ; {[]::len($3)}", ["A-smawk", "C03.R2"],
+_e(LN, "assert:BoundsCheck", "{Vec::len(RefCell::borrow(_.line_numbers))} ; {Vec::len($3)}", ["A-smawk", "C03.R2"],
    "pos = cache length <= i and minima.len() > i (smawk's contract for the closure; minima complete afterwards)")
 _e(LN, "assert:Overflow:Add", "{crate::wrap_algorithms::optimal_fit::LineNumbers::get($1,_[_].0,$3)} ; {k}",
    ["A-smawk"], "line numbers are at most the number of fragments")
@@ -137,8 +137,8 @@ _e(OF, "loop", "non-iterator", ["A-smawk", "C06.R3"], "pos strictly decreases to
 _e(OF, "call:Vec::with_capacity", "crate::wrap_algorithms::optimal_fit::LineNumbers::get(crate::wrap_algorithms::optimal_fit::LineNumbers::new([]::len(_)),[]::len($1),smawk::online_column_minima(0.0,Vec::len(_),closure{_,_,_,_,_,_}))",
    ["A-smawk", "C03.R2"], "the capacity hint is the line number of the last fragment, at most fragments.len()")
 OC = OF + "::{closure#0}"
-_e(OC, "assert:BoundsCheck", "{$3} ; {[]::len($2)}", ["A-smawk"], "smawk calls m(minima, i, j) with minima.len() > i")
-_e(OC, "assert:BoundsCheck", "{$4 k} ; {[]::len(^)}", ["A-smawk"], "i < j < size = fragments.len() + 1", max=3)
+_e(OC, "assert:BoundsCheck", "{$3} ; {Vec::len($2)}", ["A-smawk"], "smawk calls m(minima, i, j) with minima.len() > i")
+_e(OC, "assert:BoundsCheck", "{$4 k} ; {Vec::len(^)}", ["A-smawk"], "i < j < size = fragments.len() + 1", max=3)
 _e(OC, "assert:Overflow:Add", "{$3} ; {k}", ["A-smawk"], "i < j <= fragments.len()")
 _e(OC, "assert:Overflow:Sub", "{$4} ; {k}", ["A-smawk"], "j > i >= 0", max=3)
 _e(OC, "call:Index::index", "^,$3", ["A-smawk", "C03.R1"], "i < widths.len() = size")
